@@ -8,8 +8,8 @@ class ElementVector(Element):
 
     def __init__(self, elem, dim=None):
         from .element_composite import ElementComposite
-        if isinstance(elem, ElementComposite) or isinstance(
-                getattr(elem, 'elem', None), ElementComposite):
+        if (isinstance(elem, ElementComposite)
+                or ElementComposite._wraps_several_fields(elem)):
             # gbasis takes the single field of the wrapped element
             raise NotImplementedError("ElementComposite not supported.")
         self.elem = elem
